@@ -1,33 +1,15 @@
 #!/venv/bin/python
-"""Regenerate MANIFEST.json from the table below (kept valid at all times)."""
+"""Regenerate MANIFEST.json from contracts/props.py (kept valid at all times)."""
 import json, os, sys
 ROOT = os.path.dirname(os.path.dirname(os.path.abspath(__file__)))
+sys.path.insert(0, ROOT)
+from contracts.props import CLAIMS, TRUST
 PROPS = [json.loads(l) for l in open(os.path.join(ROOT, "properties.jsonl"))]
 
-TRUST = ("Trusted base: A-REAL (floats as exact reals, NaN/Inf conflated), A-NP/A-CDF (numpy / scipy.stats as modelled by "
-         "the pvc facade; exercised by concrete replays on real numpy, not proved), A-RESP (response is a tabulation), "
-         "Sigma rewrite rules, the pvc engine and z3. Callee contracts assumed at each modular cut are listed in the evidence file.")
-
-CLAIMED = {
- # id: (design_ref, text, technique)
- "C02": ("5 C02", "Every per-cell base / margin / pruning base of the nine cube-count classes and of the six base-block measure classes is a "
-         "postcondition proved for all sizes against the eligibility formulas of the statement.",
-         "contracts on real functions; VC generation by symbolic execution of the real bodies; z3 discharge (unbounded)"),
- "C03": ("5 C03", "Proportion blocks proved equal to count/base per block incl. NaN-iff-zero-base, [0,1] range and sums-to-one, for all sizes, subtotal lists and type pairings.",
-         "contracts + Sigma normal form + z3 (unbounded)"),
- "C04": ("5 C04", "Signed-merge block formulas of every measure, intersection order-independence (Fubini), NaN rules and the categorical-date rule are proved as postconditions of the real subtotal and measure classes.",
-         "contracts + Sigma normal form (Fubini) + z3 (unbounded)"),
- "C11": ("5 C11", "Three-term variance code proved equal to the indicator variance E[X^2]-E[X]^2 per block, non-negativity and sqrt(var/base) standard errors.",
-         "contracts + rational-function identity certificates + z3 NRA"),
- "C12": ("5 C12", "Adjusted standardized residual formula, rank guard, p-value range and the 2x2 chi-square identity proved for all tables.",
-         "contracts + rational-function identity certificates + z3"),
- "C15": ("5 C15", "Every share-of-sum block proved to divide by the base-cell total of its row / column / table.",
-         "contracts + Sigma normal form + z3 (unbounded)"),
-}
 
 def main():
     checks = []
-    for pid, (ref, text, tech) in sorted(CLAIMED.items()):
+    for pid, (cat, ref, text, tech) in sorted(CLAIMS.items()):
         checks.append({
             "property_id": pid,
             "quick_cmd": "./check %s --tier quick" % pid,
@@ -35,26 +17,26 @@ def main():
             "evidence_file": "evidence/%s.json" % pid,
             "replay_cmd_template": "./check --replay {path}",
             "engine": "pvc",
-            "level_claimed": {"category": "proof", "text": text, "design_ref": "DESIGN.md section " + ref},
+            "level_claimed": {"category": cat, "text": text, "design_ref": "DESIGN.md section " + ref},
             "level_note": TRUST,
             "technique": tech,
         })
-    na = [{"property_id": p["id"], "reason": "check under construction in this build session (see DESIGN.md section 5); not yet claimed"}
-          for p in PROPS if p["id"] not in CLAIMED]
+    na = [{"property_id": p["id"], "reason": "not claimed"} for p in PROPS if p["id"] not in CLAIMS]
     m = {
         "version": 1,
         "setup_cmd": "/venv/bin/pip install --quiet --no-index --find-links /opt/veriftools/wheels --target /verif/.deps z3-solver && /venv/bin/python -m compileall -q /verif/pvc /verif/contracts",
         "hooks": {"guard": "CR_CUBE_VERIF", "enable": "none needed: the verifier re-reads /repo/src on every run; the repository is not instrumented",
                   "baseline_off_cmd": "cd /repo && /venv/bin/python -m pytest -ra -q -p no:cacheprovider --timeout=900 --continue-on-collection-errors",
                   "source_commits": [], "add_only": True},
-        "engines": [{"name": "pvc", "path": "pvc/", "serves_properties": sorted(CLAIMED),
-                     "kind_free_text": "contract-based deductive verifier: symbolic execution of the real function bodies over a numpy facade, sidecar contracts, z3 discharge"}],
+        "engines": [{"name": "pvc", "path": "pvc/", "serves_properties": sorted(CLAIMS),
+                     "kind_free_text": "contract-based deductive verifier: symbolic execution of the real function bodies over a numpy facade, sidecar contracts, z3 discharge; bounded stand-ins labelled B / E"}],
         "checks": checks,
         "not_applicable": na,
-        "notes": "Genuine defects repaired by fix: commits in /repo are recorded in known_findings.json.",
+        "notes": "Genuine defects repaired by fix: commits in /repo are recorded in known_findings.json. Seeded breaking changes used to test the checks are under seeded/.",
     }
     json.dump(m, open(os.path.join(ROOT, "MANIFEST.json"), "w"), indent=1)
     print("MANIFEST: %d checks, %d not_applicable" % (len(checks), len(na)))
+
 
 if __name__ == "__main__":
     main()
